@@ -70,6 +70,8 @@ func runC12(c *Ctx) {
 	R.Rule("C12.R2", "overwrite-or-append: the crossorigin loop visits every attribute (no early exit), stores the constant \"anonymous\" into the very element whose Key is crossorigin, and the attribute appended when none was found is {crossorigin, anonymous}")
 	R.Rule("C12.R3", "sandbox filter: for every attribute whose Key is sandbox (no early exit) the value is replaced by strings.Join(kept, \" \"), kept being appended to only with a token of strings.Fields(old value) under set[token] ∧ ¬seen[token], with seen[token]=true recorded; the attribute appended when none was found is {sandbox, \"\"}")
 	R.Rule("C12.R4", "last writer wins: after the crossorigin block only the sandbox block writes attribute values or appends attributes, and after the sandbox block nothing does")
+	R.Rule("C12.R8", "every pass over the attribute list is one the rules know: each loop of sanitizeAttrs that builds or edits an attribute list tests an attribute key against one of the constants the sanitiser handles or looks the key up in a rule table; and the list is never re-sliced — a cap, a de-duplication or a re-ordering added after the forced attributes were put in can take them out again")
+	attributePassesKnown(c, "C12.R8", "what the forced-attribute rules established (crossorigin, sandbox present on every element that leaves) can be undone after the fact")
 	R.Rule("C12.R7", "the helper bundle AllowIFrames(vals...) installs the sandbox requirement on every path: each return is dominated by RequireSandboxOnIFrame(vals...)")
 	allowIFramesRequiresSandbox(c, "C12.R7")
 	R.Rule("C12.R6", "options survive lazy initialisation: an existing Policy is only ever updated field by field — no function stores a whole Policy value through a pointer it did not allocate (a `*p = Policy{…}` in init would reset every option set before)")
